@@ -273,21 +273,30 @@ pub struct KnownFindings {
     pub findings: Vec<KnownFinding>,
     #[serde(default)]
     pub fixed: Vec<String>,
+    #[serde(default, rename = "_comment")]
+    pub comment: String,
 }
 
 #[derive(Clone, Debug, Serialize, Deserialize)]
 pub struct KnownFinding {
-    pub property: String,
+    pub properties: Vec<String>,
     pub id: String,
     pub what: String,
-    /// machine-checked signature (engine specific)
-    pub signature: serde_json::Value,
+    /// human-readable statement of the signature that the code-level predicate checks
+    #[serde(default)]
+    pub signature: String,
+    /// a replay file (engine specific) that demonstrates the finding
+    #[serde(default)]
+    pub witness: serde_json::Value,
 }
 
 pub fn load_known_findings() -> KnownFindings {
     let p = format!("{}/known_findings.json", verif_dir());
     match std::fs::read_to_string(&p) {
-        Ok(s) => serde_json::from_str(&s).unwrap_or(KnownFindings { findings: vec![], fixed: vec![] }),
-        Err(_) => KnownFindings { findings: vec![], fixed: vec![] },
+        Ok(s) => serde_json::from_str(&s).unwrap_or_else(|e| {
+            eprintln!("HARNESS-ERROR: known_findings.json does not parse: {}", e);
+            std::process::exit(2)
+        }),
+        Err(_) => KnownFindings { findings: vec![], fixed: vec![], comment: String::new() },
     }
 }
